@@ -109,6 +109,9 @@ def _judge(res: CaseResult, tagp: str, case: Dict[str, Any], r: Dict[str, Any], 
             pred = predict_order(P, exp, _alive(case))
             if r["order1"][: len(pred)] != pred:
                 res.viol("order-reconf", f"[{tagp}] execution order {r['order1']} != predicted tie-free prefix {pred}")
+    if "tc" in r and r["tc"] != r["tc_def"]:
+        diff = {n: (v, r["tc_def"][n]) for n, v in r["tc"].items() if v != r["tc_def"][n]}
+        res.viol("table-composed", f"[{tagp}] compose({case['compose']}): table differs from the definition on the composed graph (got, expected): {diff}")
     if "t_end" in r and r["t_end"] != exp:
         res.viol("table-after-ops", f"[{tagp}] after {case['final_ops']} the DAG's table is {r['t_end']} != definition {exp}")
     if case.get("sel") is not None and "sel_error" not in r:
@@ -134,7 +137,7 @@ def run_case(case: Dict[str, Any]) -> CaseResult:
         if "error" in r:
             res.viol("internal-error", f"{k}: building/running the DAG raised {r['error']}")
             return res
-    tables = ("t0", "t1", "tx", "insel", "sel_error", "t_end")
+    tables = ("t0", "t1", "tx", "insel", "sel_error", "t_end", "tc")
     for k, r in replies.items():
         diff = [f for f in tables if r.get(f) != base.get(f)]
         if diff:
@@ -156,6 +159,8 @@ def run_case(case: Dict[str, Any]) -> CaseResult:
         cls.append("reconf")
     if case.get("final_ops"):
         cls.append("table-reread-after-setup-ops")
+    if "tc" in base:
+        cls.append("composed-dag-table")
     if case.get("sel") is not None:
         cls.append("sel-" + "".join(k for k in "TXR" if case["sel"].get(k) is not None))
         if "sel_error" in base:
@@ -201,6 +206,11 @@ def cases(draw: Any) -> Dict[str, Any]:
         if kind == "X":
             case["sel"] = {"X": draw(st.lists(st.sampled_from(sites), min_size=1, max_size=max(1, len(sites) - 1), unique=True))}
         del deps
+    if len(sites) >= 3 and draw(st.sampled_from([True, False, False, False])):
+        k = draw(st.integers(0, 2))
+        ins = draw(st.lists(st.sampled_from(sites), min_size=k, max_size=k, unique=True))
+        rest = [s for s in sites if s not in ins]
+        case["compose"] = {"inputs": ins, "outputs": draw(st.lists(st.sampled_from(rest), min_size=1, max_size=3, unique=True))}
     if draw(st.sampled_from([True, False, False])):
         case["final_ops"] = [{"op": draw(st.sampled_from(["setup", "executor-setup"])),
                               "T": draw(st.one_of(st.none(), st.lists(st.sampled_from(sites), min_size=0, max_size=3, unique=True)))}
